@@ -15,7 +15,14 @@ def execute : List Instr := [
   ⟨3, "if", "!ok"⟩,
   ⟨4, "continue", ""⟩,
   ⟨3, "range", "e.rootNodes"⟩,
-  ⟨4, "send", "rootNode.Ch <- sourceEvent"⟩,
+  ⟨4, "select", ""⟩,
+  ⟨5, "case-send", "rootNode.Ch <- sourceEvent"⟩,
+  ⟨5, "default", ""⟩,
+  ⟨6, "if", "rootNode.Config.DiscardOnFullBuffer"⟩,
+  ⟨7, "call", "metrics.Node().DiscardedEvents.WithLabelValues(rootNode.Config.ID).Inc()"⟩,
+  ⟨6, "else", ""⟩,
+  ⟨7, "call", "metrics.Node().BufferFullEvents.WithLabelValues(rootNode.Config.ID).Inc()"⟩,
+  ⟨7, "send", "rootNode.Ch <- sourceEvent"⟩,
   ⟨0, "range", "e.rootNodes"⟩,
   ⟨1, "close", "rootNode.Ch"⟩,
   ⟨0, "if", "waitTimeout(&e.wg, time.Duration(e.config.ShutdownTimeOut)*time.Second)"⟩,
